@@ -370,3 +370,8 @@ Qed.
 
 Theorem post_linearize_topo n deps fr lin : topo_valid n deps lin -> topo_valid n deps (post_linearize n deps fr lin).
 Proof. intros V. unfold post_linearize. apply pl_pass_topo. apply pl_pass_topo. exact V. Qed.
+
+Theorem post_linearize_perm_topo n deps fr lin :
+  Permutation (post_linearize n deps fr lin) lin /\
+  (topo_valid n deps lin -> topo_valid n deps (post_linearize n deps fr lin)).
+Proof. split; [apply post_linearize_perm | apply post_linearize_topo]. Qed.
